@@ -62,6 +62,10 @@ def cases(tier, seed):
                     if entry == "model.pre_transform" and order != 2:
                         continue
                     out.append({"shape": list(shape), "cutoff": cutoff, "order": order, "entry": entry})
+    # call histories: the filter weights are memoised per (shape, cutoff, order); a low-pass must not depend on which
+    # filters (low- or high-pass, other cutoffs, other shapes, numpy- or backend-level) were applied before it
+    for shape in ((5, 6, 4), (7, 7, 7)) + (((8, 6, 9),) if tier == "thorough" else ()):
+        out.append({"family": "history", "shape": list(shape), "depth": 2 if tier == "quick" else 3})
     return out
 
 
@@ -96,7 +100,63 @@ def _apply(entry, img, cutoff, order):
 _MODELS = {}
 
 
+def _history(case):
+    from acryo import _utils, pipe
+    from acryo.alignment import ZNCCAlignment
+    from acryo.backend import Backend
+
+    from vf import history
+
+    shape = tuple(case["shape"])
+    other = tuple(s + 1 for s in shape)
+    rng = np.random.default_rng(3)
+    img = rng.standard_normal(shape).astype(np.float32)
+    img2 = rng.standard_normal(other).astype(np.float32)
+
+    def make():
+        return {"img": img.copy(), "img2": img2.copy()}
+
+    ops = []
+    for c in (0.3, 0.45):
+        ops.append((f"utils.lowpass({c})", lambda st, c=c: np.asarray(_utils.lowpass_filter(st["img"], c, 2))))
+        ops.append((f"utils.highpass({c})", lambda st, c=c: np.asarray(_utils.highpass_filter(st["img"], c, 2))))
+        ops.append((f"backend.lowpass({c})", lambda st, c=c: np.asarray(Backend().lowpass_filter(st["img"], c, 2))))
+    ops.append(("utils.lowpass_ft(0.3)", lambda st: np.asarray(_utils.lowpass_filter_ft(st["img"], 0.3, 2))))
+    ops.append(("utils.highpass_ft(0.3)", lambda st: np.asarray(_utils.highpass_filter_ft(st["img"], 0.3, 2))))
+    ops.append(("backend.lowpass_ft(0.3)", lambda st: np.asarray(Backend().lowpass_filter_ft(st["img"], 0.3, 2))))
+    # (the backend-level high-pass helpers of acryo/backend/_bandpass.py cannot be called at all - they omit an argument of
+    # nd_butterworth_weight - and nothing in the library uses them, so they are not part of the alphabet)
+    ops.append(("utils.lowpass(0.3,order=3)", lambda st: np.asarray(_utils.lowpass_filter(st["img"], 0.3, 3))))
+    ops.append(("utils.lowpass(0.3)[other shape]", lambda st: np.asarray(_utils.lowpass_filter(st["img2"], 0.3, 2))))
+    ops.append(("backend.lowpass(0.3)[other shape]", lambda st: np.asarray(Backend().lowpass_filter(st["img2"], 0.3, 2))))
+    ops.append(("pipe.lowpass(0.3)", lambda st: np.asarray(pipe.lowpass_filter(cutoff=0.3)(st["img"], 1.0))))
+    ops.append(("pipe.highpass(0.3)", lambda st: np.asarray(pipe.highpass_filter(cutoff=0.3)(st["img"], 1.0))))
+    ops.append(("model.pre_transform(0.3)", lambda st: np.asarray(ZNCCAlignment(st["img"], cutoff=0.3).pre_transform(st["img"], Backend()))))
+    ops.append(("model.pre_transform(0.45)", lambda st: np.asarray(ZNCCAlignment(st["img"], cutoff=0.45).pre_transform(st["img"], Backend()))))
+    res = history.explore(make, ops, case["depth"], atol=2e-6, rtol=1e-5)
+    viol = []
+    seen = set()
+    for hist, why in res["failures"]:
+        s = f"{ID}|history|{hist[-1].split('(')[0]}|after-{hist[-2].split('(')[0]}"
+        if s not in seen:
+            seen.add(s)
+            viol.append((s, f"shape {shape}: {hist[-1]} after {hist[:-1]} differs from the same call on a fresh process: {why}"))
+    for hist, err in res["errors"]:
+        s = f"{ID}|history|{hist[-1].split('(')[0]}|raised"
+        if s not in seen:
+            seen.add(s)
+            viol.append((s, f"shape {shape}: {hist} raised {err}"))
+    if res["raises_alone"]:
+        raise RuntimeError(f"harness: operations {res['raises_alone']} raise on a fresh state")
+    if res["nondeterministic"]:
+        viol.append((f"{ID}|history|not-reproducible", f"operations {res['nondeterministic']} differ between two fresh runs"))
+    return {"nontrivial": True, "outcome": f"history|{'viol' if viol else 'ok'}", "viol": viol,
+            "metrics": {"history_sequences": res["sequences"], "history_calls": res["calls"]}}
+
+
 def run_case(case):
+    if case.get("family") == "history":
+        return _history(case)
     shape = tuple(case["shape"])
     cutoff, order, entry = case["cutoff"], case["order"], case["entry"]
     n = int(np.prod(shape))
